@@ -5,7 +5,7 @@ EXTENDS TlogText, TLC, Json
 CONSTANTS MaxLen
 VARIABLE t
 
-Alphabet == {97, 10, 9, 233, 32, -255}      \* a, newline, tab, e-acute, space, an invalid byte
+Alphabet == {97, 10, 9, 233, 32, -255, 65533}      \* a, newline, tab, e-acute, space, an invalid byte, a correctly encoded U+FFFD
 Ids == {0, 7, 12345}
 Rests == {<<>>, S("x"), <<10>>}
 
